@@ -53,14 +53,15 @@ Theorem C13_undefined_var_is_error :
     subst_scalar keq stack nn inv (Sc k (pre ++ BSub p :: rest)) = Err.
 Proof. exact undefined_first_is_error. Qed.
 
-(* Full statement "an invalid reference is an error" is false in two ways (both replayed on d2compiler.Compile,
-   nil-pointer panics): a variable declared without a value used inside double quotes (`vars: {x}; a: "${x}"`),
-   and a path that continues into a scalar variable (`vars: {a: 1}; x: ${a.b}`). *)
+(* Full statement "an invalid reference is an error" is false: a path that continues into a scalar variable
+   (`vars: {a: 1}; x: ${a.b}`) is a nil-pointer panic, replayed on d2compiler.Compile.  (A variable declared without
+   a value used inside double quotes, `vars: {x}; a: "${x}"`, was a second panic; it is an error since /repo
+   9d408296b, second conjunct.) *)
 Theorem C13_invalid_reference_crash_refuted :
-  subst_root keq_ascii [T [118;97;114;115] None [] true [T [120] None [] false []];
-                        T [97] (Some (Sc KDq [BSub [[120]]])) [] false []] = Crash /\
   subst_root keq_ascii [T [118;97;114;115] None [] true [T [97] (Some (Sc KAtom [BStr [49]])) [] false []];
-                        T [120] (Some (Sc KUnq [BSub [[97];[98]]])) [] false []] = Crash.
+                        T [120] (Some (Sc KUnq [BSub [[97];[98]]])) [] false []] = Crash /\
+  subst_root keq_ascii [T [118;97;114;115] None [] true [T [120] None [] false []];
+                        T [97] (Some (Sc KDq [BSub [[120]]])) [] false []] = Err.
 Proof. exact crash_witnesses. Qed.
 
 (* non-vacuity *)
